@@ -10,7 +10,7 @@ CHECKS["C39"] = dict(
     technique="TLA+ boolean-array model checked by TLC; TLC-generated operation sequences run on pkg/bitvector; "
               "recorded trace judged by the TLA+ trace spec",
     level_text="TLC exhausts the BitVector model on small lengths and generates (a) one history per (length, backing, abstract content, "
-               "operation kind) for the all-set test, (b) one per (length, backing, operation+argument+result) [thorough], (c) random walks "
+               "operation kind) for the all-set test, (b) one per (length, backing, abstract content, operation+argument), (c) random walks "
                "for every length 1..24 x slack 0..2 and for lengths 63,64,65,511,512; every recorded result and the full Get projection "
                "are judged by BitVectorTrace.tla",
     level_note="trusted: TLC, the driver's projection (Len, Get(i) for i < Len, Bytes). Get/Set beyond Len and masks of the wrong "
@@ -18,12 +18,13 @@ CHECKS["C39"] = dict(
     design=[dict(spec="MCBitVector.tla", cfg="MCBitVector.cfg", cfg_thorough="MCBitVector_thorough.cfg", workers=8, timeout=900),
             dict(spec="MCBitVector.tla", cfg="MCBitVectorRich.cfg", workers=8, timeout=900, thorough_only=True)],
     gen=dict(
-        quick=[dict(mode="edges", spec="BitVectorGen.tla", cfg="BitVectorGenAllSet.cfg", depth=5, max=800, name="allset-edges"),
-               dict(mode="sim", spec="BitVectorGen.tla", cfg="BitVectorGenSim.cfg", depth=5, num=30, max=1500, name="walks"),
+        quick=[dict(mode="edges", spec="BitVectorGen.tla", cfg="BitVectorGenAllSet.cfg", depth=5, max=700, name="allset-edges"),
+               dict(mode="edges", spec="BitVectorGen.tla", cfg="BitVectorGenOpEdgesQuick.cfg", depth=5, max=1500, name="op-edges"),
+               dict(mode="sim", spec="BitVectorGen.tla", cfg="BitVectorGenSim.cfg", depth=5, num=12, max=600, name="walks"),
                dict(mode="sim", spec="BitVectorGen.tla", cfg="BitVectorGenBig.cfg", depth=5, num=8, max=150, salt=1, name="walks-big")],
         thorough=[dict(mode="edges", spec="BitVectorGen.tla", cfg="BitVectorGenAllSet.cfg", depth=5, name="allset-edges"),
-                  dict(mode="edges", spec="BitVectorGen.tla", cfg="BitVectorGenEdges.cfg", depth=3, workers=4, timeout=1200, name="op-edges"),
-                  dict(mode="sim", spec="BitVectorGen.tla", cfg="BitVectorGenSim.cfg", depth=8, num=300, max=20000, name="walks"),
+                  dict(mode="edges", spec="BitVectorGen.tla", cfg="BitVectorGenOpEdges.cfg", depth=5, max=30000, timeout=1500, name="op-edges"),
+                  dict(mode="sim", spec="BitVectorGen.tla", cfg="BitVectorGenSim.cfg", depth=8, num=80, max=5000, name="walks"),
                   dict(mode="sim", spec="BitVectorGen.tla", cfg="BitVectorGenBig.cfg", depth=8, num=60, max=3000, salt=1, name="walks-big")]),
     judge=dict(spec="BitVectorTrace.tla", cfg="BitVectorTrace.cfg"),
     corrupt=corrupt_field("get", "res", lambda e: not e["res"]),
@@ -36,6 +37,22 @@ CHECKS["C39"] = dict(
 )
 
 # ------------------------------------------------------------------------------------ C20
+def _c20_split(scs, seed, tier):
+    """one scenario per call (TLC emits them grouped by base pattern / target / repetition)"""
+    out = []
+    for s in scs:
+        for j, o in enumerate(s["ops"]):
+            out.append({"par": dict(s.get("par", {}), no=j), "ops": [o], "src": s.get("src", "enum")})
+    return out
+
+
+def _c20_nontrivial(s):
+    o = s["ops"][0]
+    if o["op"] in ("prox", "cmp"):
+        return o["x"] != o["y"]
+    return o.get("k", 0) != -1 and o.get("shared", 0) != 32
+
+
 CHECKS["C20"] = dict(
     modules=["overlay"], level="exploration", driver="overlaydrv",
     design_ref="5 (C20)",
@@ -51,10 +68,12 @@ CHECKS["C20"] = dict(
         quick=[dict(mode="exh", spec="OverlayGen.tla", cfg="OverlayGen.cfg", depth=4, name="enum")],
         thorough=[dict(mode="exh", spec="OverlayGen.tla", cfg="OverlayGen.cfg", depth=60, name="enum")]),
     judge=dict(spec="OverlayTrace.tla", cfg="OverlayTrace.cfg"),
+    post_gen=_c20_split, selftest_scenarios=4000,
     corrupt=corrupt_field("cmp", "c", lambda e: 1 if e["c"] != 1 else -1),
-    nontrivial=lambda s: len(s["ops"]) > 0,
-    rule="one scenario per (base pattern, tail) with 42 first-difference positions; one per 2-byte target with all 256 (x, y) pairs; "
-         "one per repetition of 27 seeded 32-byte proximity pairs + 9 seeded 32-byte distance triples; distinct = distinct scenario",
+    nontrivial=_c20_nontrivial,
+    rule="one call per scenario: (base pattern, tail) x 42 first-difference positions; every (target, x, y) triple of 2-byte addresses over "
+         "a 4-byte alphabet; per repetition 27 seeded 32-byte proximity pairs + 9 seeded 32-byte distance triples; distinct = distinct "
+         "(arguments | repetition, position); non-trivial = the two compared addresses differ",
     exhaustive=dict(quick=False, thorough=False),
     assumptions=["addresses have equal length >= 5 bytes for proximity (the functions inspect 4 / 5 bytes)",
                  "big-endian numerals of equal length compare as integers at their first difference (checked by TLC on 16-bit strings)"],
@@ -74,13 +93,16 @@ CHECKS["C21"] = dict(
     level_note="data-race clause: TLA+ cannot decide it; the Go race detector observes the concurrent operation (DESIGN.md section 6) and "
                "its report is judged as clause no_data_race. Order inside a bin is predicted but never a verdict. Trusted: TLC, the driver's "
                "peer<->address map and projection, the race detector.",
-    design=[dict(spec="MCPSlice.tla", cfg="MCPSlice.cfg", cfg_thorough="MCPSlice_thorough.cfg", workers=8, timeout=1200)],
+    design=[dict(spec="MCPSlice.tla", cfg="MCPSlice.cfg", cfg_thorough="MCPSlice_thorough.cfg", workers=8, timeout=1200),
+            # two-process memory model of iterate || update: no write ever hits a cell an open snapshot may read
+            dict(spec="PSliceMem.tla", cfg="MCPSliceMem.cfg", workers=2, timeout=600)],
     gen=dict(
-        quick=[dict(mode="edges", spec="PSliceGen.tla", cfg="PSliceGenEdgesQuick.cfg", depth=6, max=1000, name="edges"),
+        quick=[dict(mode="edges", spec="PSliceGen.tla", cfg="PSliceGenEdges.cfg", depth=6, max=1000, name="edges"),
                dict(mode="sim", spec="PSliceGen.tla", cfg="PSliceGenSim.cfg", depth=12, num=6, max=600, name="walks"),
                dict(mode="edges", spec="PSliceGen.tla", cfg="PSliceGenConcEdges.cfg", depth=5, max=100, name="conc-edges")],
         thorough=[dict(mode="edges", spec="PSliceGen.tla", cfg="PSliceGenEdges.cfg", depth=6, name="edges"),
-                  dict(mode="sim", spec="PSliceGen.tla", cfg="PSliceGenSim.cfg", depth=30, num=60, max=8000, name="walks"),
+                  dict(mode="edges", spec="PSliceGen.tla", cfg="PSliceGenEdgesQuick.cfg", depth=6, max=10000, name="edges-3bins"),
+                  dict(mode="sim", spec="PSliceGen.tla", cfg="PSliceGenSim.cfg", depth=20, num=40, max=3000, name="walks"),
                   dict(mode="edges", spec="PSliceGen.tla", cfg="PSliceGenConcEdges.cfg", depth=5, max=1000, name="conc-edges"),
                   dict(mode="sim", spec="PSliceGen.tla", cfg="PSliceGenConcSim.cfg", depth=10, num=40, max=300, salt=3, name="conc-walks")]),
     judge=dict(spec="PSliceTrace.tla", cfg="PSliceTrace.cfg"),
@@ -111,11 +133,12 @@ CHECKS["C19"] = dict(
     design=[dict(spec="MCShed.tla", cfg="MCShedIndex.cfg", cfg_thorough="MCShedIndex_thorough.cfg", workers=8, timeout=1200),
             dict(spec="MCShed.tla", cfg="MCShedField.cfg", cfg_thorough="MCShedField_thorough.cfg", workers=8, timeout=1200)],
     gen=dict(
-        quick=[dict(mode="edges", spec="ShedGen.tla", cfg="ShedGenEdgesQuick.cfg", depth=6, max=2500, name="index-edges"),
-               dict(mode="sim", spec="ShedGen.tla", cfg="ShedGenSim.cfg", depth=20, num=50, max=1500, name="walks")],
-        thorough=[dict(mode="edges", spec="ShedGen.tla", cfg="ShedGenEdges.cfg", depth=8, max=60000, timeout=1500, name="index-edges"),
-                  dict(mode="edges", spec="ShedGen.tla", cfg="ShedGenFieldEdges.cfg", depth=5, max=15000, timeout=1500, name="field-edges"),
-                  dict(mode="sim", spec="ShedGen.tla", cfg="ShedGenSim.cfg", depth=25, num=600, max=20000, name="walks")]),
+        quick=[dict(mode="edges", spec="ShedGen.tla", cfg="ShedGenEdgesQuick.cfg", depth=6, max=1500, name="index-edges"),
+               dict(mode="sim", spec="ShedGen.tla", cfg="ShedGenSim.cfg", depth=12, num=30, max=700, name="walks")],
+        thorough=[dict(mode="edges", spec="ShedGen.tla", cfg="ShedGenEdges.cfg", depth=8, max=30000, timeout=1500, name="index-edges"),
+                  dict(mode="edges", spec="ShedGen.tla", cfg="ShedGenEdgesQuick.cfg", depth=6, max=12000, timeout=1500, name="batch-edges"),
+                  dict(mode="edges", spec="ShedGen.tla", cfg="ShedGenFieldEdges.cfg", depth=6, max=8000, timeout=1500, name="field-edges"),
+                  dict(mode="sim", spec="ShedGen.tla", cfg="ShedGenSim.cfg", depth=25, num=150, max=4000, name="walks")]),
     judge=dict(spec="ShedTrace.tla", cfg="ShedTrace.cfg"),
     corrupt=corrupt_field("get", "found", lambda e: not e["found"]),
     nontrivial=lambda s: any(o["op"] in _SHED_WRITES for o in s["ops"]) and any(o["op"] not in _SHED_WRITES for o in s["ops"]),
